@@ -80,6 +80,23 @@ impl Scenario for ConvergeScenario {
         let mut ocfg = OutCfg::basic();
         let ntypes = rng.urange(2, 8);
         ocfg.points = gen_points(rng, ntypes, 3, false, true);
+        // half of the outstations write the new state of an operated output to the database from inside the control callback:
+        // events then arise while the session itself is busy with a request
+        ocfg.controls_update_db = rng.bool();
+        if ocfg.controls_update_db {
+            for index in 0..3u16 {
+                if !ocfg.points.iter().any(|p| p.ptype == PointType::BinaryOutputStatus && p.index == index) {
+                    ocfg.points.push(crate::verif::nodes::outstation::PointCfg {
+                        ptype: PointType::BinaryOutputStatus,
+                        index,
+                        class: rng.range(1, 3) as u8,
+                        svar: *rng.pick(crate::verif::nodes::outstation::static_vars(PointType::BinaryOutputStatus)),
+                        evar: *rng.pick(crate::verif::nodes::outstation::event_vars(PointType::BinaryOutputStatus)),
+                        deadband: 0,
+                    });
+                }
+            }
+        }
         ocfg.unsolicited = self.unsol_only || rng.bool();
         if self.unsol_only {
             for p in ocfg.points.iter_mut() {
